@@ -1,6 +1,7 @@
 /-
   C03 — Tag iteration reproduces the specification's tag walk, zero-copy.
 -/
+import Mb2.Props.FnsTblFixed
 import Mb2.Props.FnsTblMbi
 import Mb2.Props.FnsTblTags
 import Mb2.Props.FnsDstMbi
